@@ -596,6 +596,13 @@ func c18RoundTripVia(value, how string) (bad string) {
 		})
 	case "after-next":
 		f.Get("/set", func(c flamego.Context) { c.Next(); set(c) }, func() {})
+	case "set-thrice(value,other,value)":
+		// the cookie is set, set to another value and set back: the client applies the three fields in order
+		f.Get("/set", func(c flamego.Context) {
+			set(c)
+			c.SetCookie(http.Cookie{Name: "ck", Value: "other-" + value, Path: "/"})
+			set(c)
+		})
 	}
 	f.Get("/get", func(c flamego.Context) { got = c.Cookie("ck") })
 	if bad = c18RoundTripOn(f, &got, value); bad != "" {
@@ -616,6 +623,9 @@ func c18RoundTripOn(f *flamego.Flame, got *string, value string) (bad string) {
 	}
 	resp := &http.Response{Header: spy.hdr}
 	cks := resp.Cookies()
+	if len(cks) == 3 && cks[0].Name == "ck" && cks[1].Name == "ck" && cks[2].Name == "ck" {
+		cks = cks[2:] // set three times: a client keeps what the last field says
+	}
 	if len(cks) != 1 || cks[0].Name != "ck" {
 		return fmt.Sprintf("client sees %d cookies in Set-Cookie %q", len(cks), spy.hdr["Set-Cookie"])
 	}
@@ -966,7 +976,7 @@ func c18Run(r *core.Run) {
 		} else {
 			l.Class("cookie:round-trip")
 		}
-		for _, how := range []string{"before-function", "before-function/explicit-status", "after-next"} {
+		for _, how := range []string{"before-function", "before-function/explicit-status", "after-next", "set-thrice(value,other,value)"} {
 			l.Evals++
 			l.Transitions++
 			l.Traces++
